@@ -542,7 +542,6 @@ pub fn max(values: &[Value]) -> Value {
               max = *v;
             }
           }
-          Value::Null(_) => {}
           other => return invalid_argument_type!("max", "number", other.type_of()),
         }
       }
@@ -557,7 +556,6 @@ pub fn max(values: &[Value]) -> Value {
               max = v.clone();
             }
           }
-          Value::Null(_) => {}
           other => return invalid_argument_type!("max", "string", other.type_of()),
         }
       }
